@@ -158,10 +158,16 @@ Definition post_op (acc : sys * list string) (tok : string) : sys * list string 
     match session_check st (auth_in st sid) (dec_of_N sid) with
     | inr _ => (s, snoc outs ("D:refused:" ++ b01 (is_live st sid)))
     | inl id =>
-        if is_bang (nth_s a 2) then (s, snoc outs ("D:bad:" ++ b01 (is_live st sid)))
-        else let e := mkEntry EDelete (next_index s) id 0 (unhex_field (nth_s a 2)) 0 in
-             let s' := step (fun _ => None) id_restore s (EvApply e o) in
-             (s', snoc outs ("D:ok:" ++ b01 (is_live (s_node s') sid)))
+        (* through the model of handleDeleteSession; the json oracle is the case's jd field *)
+        let jd := if is_bang (nth_s a 2) then None else Some (unhex_field (nth_s a 2)) in
+        match delete_handler (fun _ => jd) st id EmptyString with
+        | PPropose e =>
+            let e' := with_id e (next_index s) in
+            let s' := step (fun _ => None) id_restore s (EvApply e' o) in
+            (s', snoc outs ("D:ok:" ++ hex_field (e_data e) ++ ":" ++ b01 (is_live (s_node s') sid)))
+        | PProxy => (s, snoc outs ("D:proxy:" ++ b01 (is_live st sid)))
+        | _ => (s, snoc outs ("D:bad:" ++ b01 (is_live st sid)))
+        end
     end
   else if String.eqb k "K" then
     (* an entry of another kind (e.g. POST /kill, expiry) that removes sessions *)
